@@ -415,6 +415,12 @@ def main(tier, replay=None):
     if replay:
         return do_replay(run, replay)
     proof_ok = run.proof_stage()
+    # second tie (structural): segment.py, CustomTransferMap.from_merging_elements and Element.track are re-translated from
+    # REPO's source text and proved equal to Lattice/{Track,Merge,Filter}.v / Beam/Moments.v (Gen/SegGenEquiv.v)
+    import translate_stage
+    trs = translate_stage.translator_obligation_seg(run)
+    if trs["status"] != "ok":
+        run.notes.append("translator obligation (segment): " + json.dumps(translate_stage.replay_fields_seg(trs))[:600])
     ok_aux, log_aux = common.coq_build("theories/Lattice/ZCheck.vo")     # used by the generated case files, not in the closure of the Props file
     if not ok_aux:
         proof_ok, run.proof_problem = False, "coq build of theories/Lattice/ZCheck.vo failed: " + log_aux[-800:]
@@ -452,6 +458,9 @@ def main(tier, replay=None):
         tree, beam, sub, obs = cases[i]
         run.violation({"kind": "correspondence", "broken": "coq model Lattice/ZInst.v (c01_check) disagrees with Segment on this case",
                        "tree": tree, "beam": beam, "subcell": sub, "observed": obs}, no_input=True)
+    elif trs["status"] != "ok":
+        # the structural source no longer translates to the proved model; none of this run's oracles found a failing input
+        run.violation(translate_stage.replay_fields_seg(trs), no_input=True)
     elif not proof_ok:
         run.violation({"kind": "proof", "broken": run.proof_problem}, no_input=True)
     return run.finish("proof")
